@@ -38,7 +38,7 @@ type Env struct {
 }
 
 var intRe = regexp.MustCompile(`^-?[0-9]{1,19}$`) // ParseInt refuses what does not fit
-var floatRe = regexp.MustCompile(`^-?[0-9]{1,12}(\.[0-9]{1,6})?$`)
+var floatRe = regexp.MustCompile(`^-?[0-9]{1,12}(\.[0-9]{1,9})?$`)
 
 // ReadInt is the documented "decimal reading" of a text as integer.
 func ReadInt(s string) (int64, bool) {
